@@ -2,7 +2,13 @@ import PV.Model.ShmBuffer
 import PV.Spec.Queue
 import PV.Driver.Util
 /-! driver for the shared-memory buffer family (C08).
-    ops:  new H SIZE | close H | w H HEX | r H LEN | clr H | used H | free H | pos | reset -/
+    ops:  new H SIZE | own H | close H | abandon H | w H HEX | wz H LEN | r H LEN | clr H | used H | free H | pos | reset
+    `own H` = p_shm_buffer_take_ownership; the creating handle is an owner from the start.  `close H` of an owner
+    removes the name, so the protocol allows it only when H is the last open handle (the next `new` then creates a
+    fresh buffer of the newly requested capacity); `close` of a non-owner is a plain free.
+    `abandon H`: the holder of H disappears without freeing it (what a killed process leaves): the documented
+    clean-up is `own` + `close` through another handle.
+    `wz H LEN` writes LEN zero bytes (LEN up to 2^64 − 1, never materialised when it cannot fit). -/
 namespace PV.Driver.SB
 open PV.SB
 
@@ -11,7 +17,7 @@ structure St where
   cap : Nat := 0                       -- capacity the creator asked for (spec)
   q : Queue.Q := []                    -- spec queue
   hs : List (Nat × Nat) := []          -- open handles: id ↦ modulus
-  creator : Option Nat := none         -- the creating handle owns the name; the protocol never closes it
+  owners : List Nat := []              -- handles that unlink the name when freed (the creator, and after `own`)
 
 def modulusOf (s : St) (h : Nat) : Option Nat := (s.hs.find? (·.1 = h)).map (·.2)
 
@@ -31,7 +37,7 @@ def step (s : St) (toks : List String) : IO (St × Bool) := do
         if size = 0 then IO.println "fail"; return (s, false)
         let M := size + 1
         IO.println "ok"
-        return ({ s with seg := some (init M), cap := size, q := [], hs := (h, M) :: s.hs, creator := some h }, false)
+        return ({ s with seg := some (init M), cap := size, q := [], hs := (h, M) :: s.hs, owners := [h] }, false)
       | some sh =>
         -- follower: reported size = min(real, requested) unless requested = 0
         let real := sh.data.length + 16
@@ -44,9 +50,36 @@ def step (s : St) (toks : List String) : IO (St × Bool) := do
   | ["close", h] =>
     match h.toNat? with
     | some h =>
-      if (modulusOf s h).isNone || s.creator == some h then IO.println "bad-op"; return (s, false)
+      if (modulusOf s h).isNone then IO.println "bad-op"; return (s, false)
+      if s.owners.contains h then
+        if s.hs.length ≠ 1 then IO.println "bad-op"; return (s, false)
+        -- the last handle, an owner: segment, lock and name are gone
+        IO.println "ok"; return ({}, false)
       IO.println "ok"; return ({ s with hs := s.hs.filter (·.1 ≠ h) }, false)
     | none => IO.println "bad-op"; return (s, false)
+  | ["abandon", h] =>
+    -- the holder is gone without freeing (a killed process): the handle no longer counts, nothing else changes
+    match h.toNat? with
+    | some h =>
+      if (modulusOf s h).isNone then IO.println "bad-op"; return (s, false)
+      IO.println "ok"; return ({ s with hs := s.hs.filter (·.1 ≠ h), owners := s.owners.filter (· ≠ h) }, false)
+    | none => IO.println "bad-op"; return (s, false)
+  | ["own", h] =>
+    match h.toNat? with
+    | some h =>
+      if (modulusOf s h).isNone then IO.println "bad-op"; return (s, false)
+      IO.println "ok"; return ({ s with owners := if s.owners.contains h then s.owners else h :: s.owners }, false)
+    | none => IO.println "bad-op"; return (s, false)
+  | ["wz", h, n] =>
+    match h.toNat?.bind (modulusOf s), n.toNat?, s.seg with
+    | some M, some n, some sh =>
+      match writeZeros M sh n with
+      | .fault => IO.println "fault"; return (s, true)
+      | .ok sh' r =>
+        let (q', sr) := Queue.writeZeros s.cap s.q n
+        IO.println (specSuffix (fmtI r) (fmtI sr))
+        return ({ s with seg := some sh', q := q' }, false)
+    | _, _, _ => IO.println "bad-op"; return (s, false)
   | ["w", h, hex] =>
     match h.toNat?.bind (modulusOf s), bytesOfHex hex, s.seg with
     | some M, some xs, some sh =>
